@@ -1572,6 +1572,10 @@ def _known_runnable(case, cfg, e, rec) -> bool:
         return _is_known(rec, KNOWN_RECENT)
     if frame in _PASSTHROUGH_FRAMES and isinstance(e, (TypeError, ValueError, AttributeError, OverflowError)) and _undocumented_passthrough(case):
         return _is_known(rec, KNOWN_PASSTHROUGH)
+    # the same failure inside a parallel T1 task surfaces wrapped: "ParallelError: ... AttributeError: 'str' object has no ..."
+    if frame == "parallel.py:run_parallel" and type(e).__name__ == "ParallelError" and _undocumented_passthrough(case) \
+            and any(t in str(e) for t in ("TypeError", "ValueError", "AttributeError", "OverflowError")):
+        return _is_known(rec, KNOWN_PASSTHROUGH)
     return False
 
 
